@@ -243,8 +243,11 @@ func (d *Driver) Run() int {
 	}
 	total := 0
 	for _, s := range p.Strata {
-		if s.WitnessOnly {
+		if s.WitnessOnly && os.Getenv("VERIF_DEMOTED") == "" {
 			continue
+		}
+		if only := os.Getenv("VERIF_STRATA"); only != "" && !strings.Contains(","+only+",", ","+s.Name+",") {
+			continue // development aid: restrict the run to some strata
 		}
 		n := s.Quick
 		if d.Tier == "thorough" {
@@ -619,6 +622,14 @@ func (d *Driver) Report(order []string, aggs map[string]*StratumAgg, hangs []han
 	b, _ := json.MarshalIndent(ev, "", " ")
 	os.WriteFile(filepath.Join(d.Verif, "evidence", p.ID+".json"), b, 0o644)
 	fmt.Printf("%s %s seed=%d: %d cases (%d held, %d violated [%d known], %d inconclusive), %d distinct non-trivial, %.1fs\n",
-		p.ID, d.Tier, d.Seed, tot.Cases, tot.Held, tot.Violated, tot.Violated-len(unknown), tot.Inconclusive, len(tot.Hashes), time.Since(d.Start).Seconds())
+		p.ID, d.Tier, d.Seed, tot.Cases, tot.Held, tot.Violated, knownTotal(knownHit), tot.Inconclusive, len(tot.Hashes), time.Since(d.Start).Seconds())
 	return exit
+}
+
+func knownTotal(m map[string]int) int {
+	n := 0
+	for _, v := range m {
+		n += v
+	}
+	return n
 }
